@@ -68,6 +68,8 @@ class InterpBase:
             return z3.Length(v.e) > 0
         if isinstance(v, VSym):
             return smt.truthy_term(v.t)
+        if type(v).__name__ == 'VListAt':
+            return z3.Length(self.seq_get(v)) > 0
         if isinstance(v, VRef):
             h = ex.heap[v.addr]
             if isinstance(h, HList):
@@ -77,10 +79,7 @@ class InterpBase:
             if isinstance(h, HDict):
                 return bool(h.items)
             if isinstance(h, HSymDict) or isinstance(h, HSymSet):
-                nonempty = h.__dict__.get('nonempty')
-                if nonempty is None:
-                    raise Undecided('truthiness of a symbolic dict/set without a size ghost')
-                return nonempty
+                return h.dom != z3.EmptySet(Val)
             if isinstance(h, HObj):
                 ci = h.cls
                 if isinstance(ci, ClassInfo):
@@ -634,6 +633,10 @@ class InterpBase:
         g = e.generators[0]
         it = self.eval(g.iter, fr)
         items = self.iter_concrete(it)
+        if items is None and kind in ('gen', 'set') and type(it).__name__ == 'VIterView' and it.kind == 'items' \
+                and isinstance(g.target, ast.Tuple) and len(g.target.elts) == 2 and isinstance(e.elt, ast.Name) \
+                and isinstance(g.target.elts[0], ast.Name) and e.elt.id == g.target.elts[0].id:
+            return self.keyset_comprehension(e, g, it, fr)
         if items is None and kind in ('list', 'gen') and isinstance(g.target, ast.Name) and isinstance(e.elt, ast.Name) \
                 and e.elt.id == g.target.id and (self.is_symlist(it) or isinstance(it, VSeq)):
             return self.filter_comprehension(e, g, it, fr)
@@ -661,6 +664,23 @@ class InterpBase:
         if kind == 'set':
             raise Undecided('set comprehension over concrete items')
         return self.ex.alloc(HList(out))
+
+    def keyset_comprehension(self, e, g, it, fr):
+        """(k for k, v in d.items() if P(v)) over a symbolic dict: the set {k | k in d and P(d[k])} as a lambda array"""
+        ex = self.ex
+        h = ex.heap[it.base.addr]
+        kv = z3.Const('__kbound__', Val)
+        sub = Frame(fr.fi, parent=fr, module=fr.module)
+        sub.self_cls, sub.owner = fr.self_cls, fr.owner
+        sub.locals[g.target.elts[0].id] = VSym(kv)
+        val = z3.Select(h.map, kv)
+        sub.locals[g.target.elts[1].id] = VSeq(val) if h.vkind == 'symlist' else VSym(val)
+        p = True
+        for c in g.ifs:
+            p = self.land(p, self.truth(self.eval(c, sub)))
+        pz = p if isinstance(p, z3.ExprRef) else z3.BoolVal(bool(p))
+        dom = z3.Lambda([kv], z3.And(z3.Select(h.dom, kv), pz))
+        return ex.alloc(HSymSet(dom))
 
     def filter_comprehension(self, e, g, it, fr):
         """[x for x in S if P(x)] over a symbolic sequence: the result R is characterised, for every tracked
@@ -902,6 +922,7 @@ class InterpBase:
                 hook = ex.ghost.get('__setattr_hooks__', {}).get(name)
                 if hook:
                     hook(self, obj, h, value)
+                value = self.coerce_kind(value, ex.ghost.get('__attr_kinds__', {}).get(name))
                 h.attrs[name] = value
                 return
         if isinstance(obj, VAbs):
